@@ -111,6 +111,39 @@ static void precond_classes() {
             vr::obj o; o.str("k", "equivp").str("cls", "(absent)").str("what", "defaults").i("mat", m);
             a.json(o, "_t"); b.json(o, "_r"); vr::emit(o.done());
         } }
+    // rebuild history for aggregation with non-default over_interp: build(A) -> rebuild(2A) -> apply.
+    // typed vs run-time (both flavours) bitwise, and the rebuilt typed object against a typed object
+    // freshly built from 2A with the same parameters (scaling by 2 keeps the transfer operators)
+    for (float oi : {1.25f, 3.0f}) {
+        typedef amgcl::amg<B, amgcl::coarsening::aggregation, amgcl::relaxation::spai0> T;
+        for (int m = 0; m < (int)problems.size(); ++m) {
+            const problem &pb = problems[m];
+            auto A2 = std::make_shared<vr::crsd>(*pb.A);
+            for (ptrdiff_t j = 0; j < (ptrdiff_t)A2->nnz; ++j) A2->val[j] *= 2.0;
+            amgcl::backend::numa_vector<double> f(pb.rhs);
+            auto hist = [&](auto &P, result &r) {
+                amgcl::backend::numa_vector<double> y(pb.rhs.size()), y2(pb.rhs.size());
+                P.apply(f, y); r.px.vec(y.data(), y.size()); r.it = 0; r.describe(P);
+                try { P.rebuild(*A2); P.apply(f, y2); r.rpx.vec(y2.data(), y2.size()); r.rit = 0; }
+                catch (const std::exception &e) { r.rthrew = true; r.exc = std::string("rebuild: ") + e.what(); }
+            };
+            T::params p; p.coarse_enough = 20; p.coarsening.over_interp = oi;
+            ptree t; t.put("coarse_enough", 20); t.put("coarsening.type", "aggregation"); t.put("relax.type", "spai0");
+            t.put("coarsening.over_interp", oi);
+            result a, b1, b2, fr;
+            try { T P(*pb.A, p); hist(P, a); } catch (const std::exception &e) { a.threw = true; a.exc = e.what(); }
+            try { RAMG P(*pb.A, t); hist(P, b1); } catch (const std::exception &e) { b1.threw = true; b1.exc = e.what(); }
+            try { ptree t2 = t; t2.put("class", "amg"); amgcl::runtime::preconditioner<B> P(*pb.A, t2); hist(P, b2); }
+            catch (const std::exception &e) { b2.threw = true; b2.exc = e.what(); }
+            try { T P(*A2, p); amgcl::backend::numa_vector<double> y(pb.rhs.size()); P.apply(f, y); fr.px.vec(y.data(), y.size()); }
+            catch (const std::exception &e) { fr.threw = true; fr.exc = e.what(); }
+            const char *what = oi == 3.0f ? "aggregation over_interp=3 rebuild(2A)" : "aggregation over_interp=1.25 rebuild(2A)";
+            { vr::obj o; o.str("k", "equivp").str("cls", "amg-wrappers").str("what", what).i("mat", m); a.json(o, "_t"); b1.json(o, "_r"); vr::emit(o.done()); }
+            { vr::obj o; o.str("k", "equivp").str("cls", "amg").str("what", what).i("mat", m); a.json(o, "_t"); b2.json(o, "_r"); vr::emit(o.done()); }
+            { vr::obj o; o.str("k", "rebuilt").str("what", what).i("mat", m).b("threw", a.threw || a.rthrew || fr.threw)
+                .i("rpx_lo", a.rpx.lo()).i("rpx_hi", a.rpx.hi()).i("fpx_lo", fr.px.lo()).i("fpx_hi", fr.px.hi()); vr::emit(o.done()); }
+        }
+    }
     {   // default solver type = bicgstab
         typedef amgcl::make_solver<amgcl::amg<B, amgcl::coarsening::smoothed_aggregation, amgcl::relaxation::spai0>, amgcl::solver::bicgstab<B>> T;
         for (int m = 0; m < (int)problems.size(); ++m) {
